@@ -100,7 +100,8 @@ def check_case(R, case, channels):
             mc_ = build_model(0.0, 5.0, 1.0)
             b.register_model(mc_, scenario_manager="smc", scenario={"fine": {"runspecs": {"starttime": start, "stoptime": stop, "dt": dt}}})
             df = b.run_scenarios(scenario_managers=["smc"], scenarios=["fine"], equations=["s"], return_format="df")
-            d = exact(list(df.index), exp); R.add("label_sequences_compared")
+            d = exact(list(df.index), exp) if df is not None else {"expected": exp[:6], "observed": "run_scenarios returned nothing"}
+            R.add("label_sequences_compared")
             if d: bad("run_scenarios(df).index of a scenario with runspecs", d)
             else:
                 col = [c for c in df.columns if c.endswith("s")][0]
